@@ -19,17 +19,21 @@ import (
 	"verifharness/internal/hx"
 	"verifharness/internal/prng"
 	"verifharness/internal/tlive"
+
+	"github.com/acquirecloud/golibs/timeout"
 )
 
 const coqHeader = "From Coq Require Import List ZArith NArith.\nFrom GL Require Import model.THeap spec.TimerObs run.Run_C13.\nImport ListNotations.\nOpen Scope Z_scope.\n"
 
 var (
 	childIdx = flag.Int("child", -1, "internal: run the scenarios of this child index")
-	nChild   = flag.Int("nchild", 8, "number of child processes")
+	nChild   = flag.Int("nchild", 8, "number of child processes for the arrival patterns")
+	nRearm   = flag.Int("nrearm", 2, "number of additional child processes for the tight re-arm stream (child index >= nchild)")
 )
 
 type childLine struct {
 	Case    tlive.Scenario `json:"case"`
+	Ctor    string         `json:"ctor,omitempty"` // PoolCase (default) | RearmCase
 	Term    string         `json:"term"`
 	NonTriv bool           `json:"nontriv"`
 	Counts  map[string]int `json:"counts"`
@@ -37,6 +41,8 @@ type childLine struct {
 	Direct  []directV      `json:"direct"`
 	MaxLate int64          `json:"max_late"`
 	MaxWind int64          `json:"max_wind"`
+	Extra   map[string]any `json:"extra,omitempty"`
+	Params  []int64        `json:"params,omitempty"` // idle ns, maxWorkers, cap(wakeCh) as read through VerifPool before anything ran
 }
 
 type directV struct {
@@ -85,6 +91,10 @@ func genPool(seed uint64, idx uint64, thorough bool) tlive.Scenario {
 	idle := sc.IdleUs
 	if idle == 0 {
 		idle = 15000
+	}
+	if (thorough && idx >= 480 && idx%3 == 0) || (!thorough && r.Chance(1, 4)) {
+		genRecancel(r, &sc)
+		return sc
 	}
 	for g := 0; g < sc.NG; g++ {
 		perm := nthPerm(order)
@@ -157,6 +167,12 @@ func softFailures(sc tlive.Scenario, res tlive.Result) []string {
 			}
 		}
 	}
+	for _, sn := range res.Snaps {
+		if noProgress(sn) {
+			out = append(out, fmt.Sprintf("snapshot at %d ms: the head has been due for %d ms", sn.T0/1e6, (sn.T0-sn.Heap[0].Fire)/1e6))
+			break
+		}
+	}
 	if sc.WindUp && !res.DefaultIdle {
 		if res.WindDownNs < 0 {
 			out = append(out, "workers did not wind down")
@@ -168,6 +184,11 @@ func softFailures(sc tlive.Scenario, res tlive.Result) []string {
 		}
 	}
 	return out
+}
+
+// noProgress is the UNTRUSTED mirror of snap_progress_ok (spec/TimerObs.v)
+func noProgress(sn tlive.Snap) bool {
+	return len(sn.Heap) > 0 && sn.T0 > sn.Heap[0].Fire+lateBound
 }
 
 func bucket(ns int64) string {
@@ -187,6 +208,9 @@ func bucket(ns int64) string {
 }
 
 func runScenario(sc tlive.Scenario, seed uint64) childLine {
+	if sc.Kind == "rearm" && sc.Rearm != nil {
+		return runRearm(sc, seed)
+	}
 	counts := map[string]int{}
 	var res tlive.Result
 	for attempt := 1; ; attempt++ {
@@ -200,6 +224,15 @@ func runScenario(sc tlive.Scenario, seed uint64) childLine {
 	}
 	l := childLine{Case: sc, Counts: counts}
 	snaps := tlive.PickSnaps(sc, res, 5)
+	for _, sn := range res.Snaps {
+		if noProgress(sn) { // Coq is the judge: it gets the snapshot
+			if len(snaps) >= 5 {
+				snaps = snaps[:len(snaps)-1]
+			}
+			snaps = append([]tlive.Snap{sn}, snaps...)
+			break
+		}
+	}
 	wind := res.WindDownNs
 	if !sc.WindUp || res.DefaultIdle {
 		wind = -1
@@ -219,6 +252,16 @@ func runScenario(sc tlive.Scenario, seed uint64) childLine {
 	counts[fmt.Sprintf("idle_us:%d", sc.IdleUs)]++
 	counts[fmt.Sprintf("maxw:%d", sc.MaxW)]++
 	counts[fmt.Sprintf("callers:%d", sc.NG)]++
+	if sc.Family == "recancel" {
+		counts["family:recancel"]++
+	} else {
+		counts["family:patterns"]++
+	}
+	for _, f := range res.Futs {
+		if len(f.Cancels) > 1 {
+			counts["futures-cancelled-repeatedly"]++
+		}
+	}
 	counts["snapshots-taken"] += len(res.Snaps)
 	maxW := 0
 	for _, s := range res.Snaps {
@@ -276,6 +319,11 @@ func runChild(fl *hx.Flags) {
 	defer func() { w.Flush(); fh.Close() }()
 	if fl.From != "" {
 		for _, sc := range hx.ReadCases[tlive.Scenario](fl.From) {
+			if sc.Kind == "params" {
+				idle, mw, wc := timeout.VerifPool()
+				enc.Encode(childLine{Case: sc, Params: []int64{int64(idle), int64(mw), int64(wc)}, Counts: map[string]int{}})
+				continue
+			}
 			enc.Encode(runScenario(sc, fl.Seed))
 		}
 		return
@@ -285,11 +333,26 @@ func runChild(fl *hx.Flags) {
 	if thorough {
 		budget, maxN = 400*time.Second, 480 / *nChild * 4
 	}
+	rearm := *childIdx >= *nChild
+	if rearm && thorough {
+		maxN = 2000
+	}
+	if !rearm && *childIdx == 0 {
+		// the premises of the theorems, before anything changed them
+		idle, mw, wc := timeout.VerifPool()
+		enc.Encode(childLine{Case: tlive.Scenario{Kind: "params", Family: "params"}, Params: []int64{int64(idle), int64(mw), int64(wc)}, Counts: map[string]int{}})
+	}
 	t0 := time.Now()
 	var prev *tlive.Scenario
 	for k := 0; k < maxN && time.Since(t0) < budget; k++ {
 		idx := uint64(*childIdx) + uint64(k)*uint64(*nChild)
-		sc := genPool(fl.Seed, idx, thorough)
+		var sc tlive.Scenario
+		if rearm {
+			idx = uint64(*childIdx-*nChild) + uint64(k)*uint64(*nRearm)
+			sc = genRearm(fl.Seed, idx)
+		} else {
+			sc = genPool(fl.Seed, idx, thorough)
+		}
 		l := runScenario(sc, fl.Seed^idx)
 		if l.Stop {
 			if prev != nil {
@@ -313,7 +376,7 @@ func runChild(fl *hx.Flags) {
 func spawnChild(fl *hx.Flags, i int, from string) []childLine {
 	dir := filepath.Join(fl.Out, fmt.Sprintf("child%d", i))
 	os.MkdirAll(dir, 0o755)
-	args := []string{"--tier", fl.Tier, "--seed", fmt.Sprint(fl.Seed), "--out", dir, "--child", fmt.Sprint(i), "--nchild", fmt.Sprint(*nChild)}
+	args := []string{"--tier", fl.Tier, "--seed", fmt.Sprint(fl.Seed), "--out", dir, "--child", fmt.Sprint(i), "--nchild", fmt.Sprint(*nChild), "--nrearm", fmt.Sprint(*nRearm)}
 	if from != "" {
 		args = append(args, "--from", from)
 	}
@@ -348,12 +411,28 @@ func main() {
 	var maxLate, maxWind int64
 	add := func(id uint64, l childLine) {
 		l.Case.ID = id
-		s.Add(l.Case, fmt.Sprintf("PoolCase %d%%N (%s)", id, l.Term), l.NonTriv)
+		switch {
+		case l.Case.Kind == "params":
+			if len(l.Params) != 3 {
+				idle, mw, wc := timeout.VerifPool() // replay of the params case
+				l.Params = []int64{int64(idle), int64(mw), int64(wc)}
+			}
+			s.Add(l.Case, fmt.Sprintf("ParamsCase %d%%N %s %s %s", id, tlive.ZS(l.Params[0]), tlive.ZS(l.Params[1]), tlive.ZS(l.Params[2])), false)
+			s.Count("premises-of-the-theorems-read-through-VerifPool")
+		case l.Ctor == "RearmCase":
+			s.Add(l.Case, fmt.Sprintf("RearmCase %d%%N (%s)", id, l.Term), l.NonTriv)
+		default:
+			s.Add(l.Case, fmt.Sprintf("PoolCase %d%%N (%s)", id, l.Term), l.NonTriv)
+		}
 		for k, n := range l.Counts {
 			s.Dist[k] += n
 		}
 		for _, d := range l.Direct {
 			s.DirectViolation(id, d.What, d.Detail)
+		}
+		if l.Extra != nil {
+			// a stall confirmed in three runs in a row; the Coq side fails the same case (fut_ok, snap_progress_ok)
+			s.DirectViolation(id, fmt.Sprint(l.Extra["what"]), l.Extra)
 		}
 		if l.MaxLate > maxLate {
 			maxLate = l.MaxLate
@@ -369,25 +448,48 @@ func main() {
 		s.Close("replayed cases", false)
 		return
 	}
-	outs := make([][]childLine, *nChild)
+	outs := make([][]childLine, *nChild+*nRearm)
 	var wg sync.WaitGroup
-	for i := 0; i < *nChild; i++ {
+	for i := 0; i < *nChild+*nRearm; i++ {
 		wg.Add(1)
 		go func(i int) { defer wg.Done(); outs[i] = spawnChild(fl, i, "") }(i)
 	}
 	wg.Wait()
 	id := uint64(0)
-	for _, lines := range outs {
-		for _, l := range lines {
+	// the re-arm stream first, then the patterns, the premises last (the first failing case is the one that is reported)
+	var params []childLine
+	for i := len(outs) - 1; i >= 0; i-- {
+		if i == *nChild-1 {
+			// children nchild.. (re-arm) have been emitted, now 0..nchild-1 in order
+			for j := 0; j < *nChild; j++ {
+				for _, l := range outs[j] {
+					if l.Case.Kind == "params" {
+						params = append(params, l)
+						continue
+					}
+					id++
+					add(id, l)
+				}
+			}
+			break
+		}
+		for _, l := range outs[i] {
 			id++
 			add(id, l)
 		}
 	}
+	for _, l := range params {
+		id++
+		add(id, l)
+	}
 	s.Extra["max_lateness_ms"] = float64(maxLate) / 1e6
 	s.Extra["max_wind_down_ms"] = float64(maxWind) / 1e6
-	s.Close("live scenarios (one at a time per process, 8 processes): per caller a permutation of the phases {far (1 h, cancelled at the end), near (0.5-4 ms), burst of maxWorkers+1..6 due at once, cancel-head (head of the queue cancelled, follower must be re-armed for), idle gap of 1.1-2.6 idle}; "+
-		"1-4 concurrent callers, idle in {5, 20, 50 ms, default 30 s}, maxWorkers 1..10 (hook VerifSetPool); thorough: all 120 orders x 4 idle values. "+
-		"observed: start of every callback vs its fireT (lateness histogram in the distribution), lock-held snapshots (worker count, tokens, heap), wind-down to zero workers, restart. non-trivial = at least 3 futures", false)
+	s.Close("(a) tight re-arm behind a distant future (2 processes, GOMAXPROCS 2..16): 1-3 futures 1 h away keep the worker heading for a long sleep while 1-4 callers schedule zero-delay / 0-30 us futures, each right after the previous callback of that caller started (busy-loop gaps i mod 1..257), optionally a near head scheduled and cancelled at once every k-th iteration and cancelled again later; "+
+		"per iteration: started within 1 s, start > call + d, callbacks <= calls, cancelled heads never run (folded; sampled iterations verbatim); a stall counts only if it happened in three runs of the scenario in a row while the canary (200 us sleeper) overslept < 50 ms; "+
+		"(b) live scenarios (one at a time per process, 8 processes): family patterns = per caller a permutation of the phases {far (1 h, cancelled at the end), near (0.5-4 ms), burst of maxWorkers+1..6 due at once, cancel-head (head of the queue cancelled, follower must be re-armed for), idle gap of 1.1-2.6 idle}; "+
+		"1-4 concurrent callers, idle in {5, 20, 50 ms, default 30 s}, maxWorkers 1..10 (hook VerifSetPool); thorough: all 120 orders x 4 idle values; family recancel = 2-6 pending futures, one cancelled, 1-4 more scheduled, the same one cancelled again (also twice in a row, after a fired one was cancelled, and deferred after the round), every other future must start; "+
+		"(c) the premises of the theorems (0 <= idleTimeout, 1 <= maxWorkers, 1 <= cap(wakeCh)) read through VerifPool. "+
+		"observed: start of every callback vs its fireT (lateness histogram in the distribution), lock-held snapshots (worker count, tokens, heap; the head never due for more than 1 s), wind-down to zero workers, restart. non-trivial = at least 3 futures", false)
 }
 
 // tailBuf keeps the last 4 KiB written to it
